@@ -94,7 +94,11 @@ def rewire(n, rng):
                             p.wire.disconnect_pins_from([handle])
                         moved += 1
                     if x < 0.18:
-                        rng.choice(wires).connect_pin(handle)
+                        w_ = rng.choice(wires)
+                        if rng.random() < 0.5:
+                            w_.connect_pin(handle)
+                        else:
+                            w_.connect_pin(handle, position=rng.randint(0, len(w_.pins)))   # where in wire.pins is the caller's choice
                         moved += 1
     return moved
 
